@@ -45,6 +45,6 @@ def check(ctx):
     return ctx.finish(
         rule='cases: (i) every TLC-enumerated behaviour of the history machine (from_triplets in every order / from_vecs in every within-column order, then 2 operations), '
              '(ii) per shape (r,c) in 0..8^2 a random duplicate-free pattern in random triplet order or as raw arrays + 6 operations, (iii) all n! triplet orders of patterns with n <= 5 entries (half of them confined to two columns) + transpose, '
-             '(iv) raw compressed-column arrays with shuffled columns and empty border rows/columns, (v) empty/full/diagonal/single-column/single-row patterns, (vi) histories of 50 insert(new)/overwrite/scale/transpose operations with occasional re-construction, (viii) from_vecs inputs with full columns / a single column / a single row stored descending, rotated and in random row order at sizes 8 and below, every view after construction, overwrites, transpose, new entry, scale, (ix) workspace wrap-around cases, all in the one harness process and thread: a large instance (many rows / many columns / full), and for every operation (transpose, multiply, transpose_multiply, get, to_dense, to_triplets/col_index, scale, insert overwrite/new, from_triplets, and all together) a use on the large instance, G-1 unlogged calls on small instances (<= 2 rows/columns, <= 3 entries) and the same use again, for G in {255,256,257,511,512,65535,65536,65537}; the large uses are ordinary events, the small calls are only counted (event gap), (vii) zero-centred histories: overwrite of an existing entry with 0, new entry 0, scale by 0, transposes in between, non-zero over zero; explicit zeros also occur at random in every other family (8% of constructor values, 12%/25% of new/overwriting inserts); element types Rat and f64 (integer data). '
+             '(iv) raw compressed-column arrays with shuffled columns and empty border rows/columns, (v) empty/full/diagonal/single-column/single-row patterns, (vi) histories of 50 insert(new)/overwrite/scale/transpose operations with occasional re-construction, (viii) from_vecs inputs with full columns / a single column / a single row stored descending, rotated and in random row order at sizes 8 and below, every view after construction, overwrites, transpose, new entry, scale, (ix) workspace wrap-around cases, all in the one harness process and thread: a large instance (many rows / many columns / full), and for every operation (transpose, multiply, transpose_multiply, get, to_dense, to_triplets/col_index, scale, insert overwrite/new, from_triplets, and all together) a use on the large instance, G-1 unlogged calls on small instances (<= 2 rows/columns, <= 3 entries) and the same use again, for G in {255,256,257,511,512,65535,65536,65537}; the large uses are ordinary events, the small calls are only counted (event gap), (x) poison sequences: every kind of refused call (insert / get out of range, from_triplets with a bad triplet at any list position after 0, 1 or many valid ones, wrong-length vectors, inconsistent raw arrays) run under a panic guard and followed at once, on the same thread, by the fields and all views of the SAME object (the reference does not move: it must still be the unchanged matrix), a fresh assembly of the same shape, one of another shape and an insert sequence, each judged as usual; the refused call itself only has to not return where src/sparse.rs documents a panic, (vii) zero-centred histories: overwrite of an existing entry with 0, new entry 0, scale by 0, transposes in between, non-zero over zero; explicit zeros also occur at random in every other family (8% of constructor values, 12%/25% of new/overwriting inserts); element types Rat and f64 (integer data). '
              'An event is non-trivial if the matrix has at least one stored entry (or the call panicked); distinct = distinct (operation, arguments, logged fields and views).',
         trusted=['harness projection of Sparse<T> fields and view results to integers (harness/src/suites/sparse.rs)', 'TLC', 'abstract operators of SparseCSC.tla as the reference'])
